@@ -169,14 +169,146 @@ theorem C18_report (s : Sig) (hwf : s.wf = true) (c : Call) (o i : Bool) (F : Fu
   rw [List.map_congr_left (fun p hp => e1 p (List.mem_append_left _ hp)),
       List.map_congr_left (fun p hp => e1 p (List.mem_append_right _ hp))]
 
-/-! ### Direct construction of a symbolized class (stated; tied by correspondence only) -/
+/-- Clone and JSON round trip report the same arguments: `clone` carries the whole modelled state
+over, and `from_json(to_json(F))` — which re-constructs by field name with the defaults made
+explicit — has the same `sym_init_args`, hence (with `C18_report`) denotes the same supplied
+arguments. (That the round-tripped functor also *calls* like the original is tied by
+correspondence: `json_call0`, `clone_call` in the differential run.) -/
+theorem C18_report_roundtrip (s : Sig) (hwf : s.wf = true) (c : Call) (o i : Bool) (F : Functor) (n : Named)
+    (hc : c.wf = true) (ha : AvoidsVarargsName s c)
+    (hF : functorInit s c o i = .ok F) (hn : nameArgs s c = .ok n) :
+    symInitArgs F.clone = reportNamed s n ∧ symInitArgs F.jsonRoundTrip = reportNamed s n := by
+  obtain ⟨hB, _, _⟩ := built_of_init s hwf c o i F n hc ha hF hn
+  refine ⟨C18_report s hwf c o i F n hc ha hF hn, ?_⟩
+  rw [symInitArgs_json s hwf F hB.sig hB.vaSome]
+  exact C18_report s hwf c o i F n hc ha hF hn
 
-/-- `Cls(*a, **k)` for `Cls = pg.symbolize(UserClass)` binds as the user's `__init__` does.
-Not proved yet (the correspondence run and the exhaustive small-scope enumeration of the thorough
-tier support it; no counterexample is known). -/
-def C18_direct_Full : Prop :=
-  ∀ (s : Sig) (c : Call), s.wf = true → c.wf = true → AvoidsVarargsName s c →
-    classInit s c = pyCall s c
+/-! ### Direct construction of a symbolized class -/
+
+/-- `Cls(*a, **k)` for `Cls = pg.symbolize(UserClass)` binds as the user's `__init__` does: what
+`__init__` sees is the language's assignment for `(a, k)`, or construction fails with the same
+class of error — for every signature and every call. (Model of class_wrapper.py with
+fixes/C18-F61.patch.) -/
+theorem C18_direct {R : Type} (body : Assignment → R) (s : Sig) (hwf : s.wf = true) (c : Call)
+    (hc : c.wf = true) (ha : AvoidsVarargsName s c) :
+    (classInit s c).map body = (pyCall s c).map body := by
+  rw [classInit_eq s hwf c hc ha]
+
+/-! ### Construction-time errors -/
+
+/-- `F(*a, **k)` is refused at construction exactly when the language cannot distribute the
+arguments over the parameters (too many positionals, multiple values, unexpected keyword), and
+then with the same exception class; missing arguments are not an error at construction (partial
+binding) — they are reported by the call (`C18_construct`). -/
+theorem C18_construct_errors (s : Sig) (hwf : s.wf = true) (c : Call) (o i : Bool)
+    (hc : c.wf = true) (ha : AvoidsVarargsName s c) :
+    (∃ e, nameArgs s c = .error e) ↔ functorInit s c o i = .error .typeError := by
+  constructor
+  · rintro ⟨e, he⟩; exact functorInit_of_err s c o i hc ha e he
+  · intro h
+    cases hn : nameArgs s c with
+    | error e => exact ⟨e, rfl⟩
+    | ok n =>
+      obtain ⟨F, hF⟩ := functorInit_of_named s hwf c o i hc ha n hn
+      rw [hF] at h; cases h
+
+/-- Construction-time binding, total form: `F(*a, **k)()` — construction followed by an empty
+call — has the outcome of `f(*a, **k)` for EVERY call. -/
+theorem C18_construct_total {R : Type} (body : Assignment → R) (s : Sig) (hwf : s.wf = true)
+    (c : Call) (o i : Bool) (hc : c.wf = true) (ha : AvoidsVarargsName s c) :
+    (match functorInit s c o i with
+     | .error e => (Except.error e : Except PyErr Assignment)
+     | .ok F => functorCall true F Call.empty none none).map body = (pyCall s c).map body := by
+  cases hn : nameArgs s c with
+  | error e =>
+    rw [functorInit_of_err s c o i hc ha e hn, pyCall_of_named_err hn]
+  | ok n =>
+    obtain ⟨F, hF⟩ := functorInit_of_named s hwf c o i hc ha n hn
+    rw [hF]
+    exact C18_construct body s hwf c o i F n hc ha hF hn
+
+/-! ### The effective direct call -/
+
+/-- `C18_call` stated against a literal direct call: if `effective` (the direct call that supplies
+the merged arguments — everything by keyword, or positionally when there are surplus positionals)
+is defined, the two-stage functor call has the outcome of `f(*eff.args, **eff.kwargs)`. -/
+theorem C18_call_effective {R : Type} (body : Assignment → R) (s : Sig) (hwf : s.wf = true)
+    (c1 c2 : Call) (o i : Bool) (o? i? : Option Bool) (F : Functor) (eff : Call)
+    (h1 : c1.wf = true) (h2 : c2.wf = true)
+    (ha1 : AvoidsVarargsName s c1) (ha2 : AvoidsVarargsName s c2)
+    (hF : functorInit s c1 o i = .ok F)
+    (heff : effective s c1 c2 (i?.getD i) = .ok eff)
+    (hcompat : o?.getD o = true ∨
+      ∀ n1 n2, nameArgs s c1 = .ok n1 →
+        nameArgs s (if i?.getD i = true then dropExtras s c2 else c2) = .ok n2 → conflicts n1 n2 = false) :
+    (functorCall true F c2 o? i?).map body = (pyCall s eff).map body := by
+  unfold effective at heff
+  cases hn1 : nameArgs s c1 with
+  | error e => rw [hn1] at heff; cases heff
+  | ok n1 =>
+    rw [hn1] at heff
+    simp only at heff
+    cases hn2 : nameArgs s (if i?.getD i = true then dropExtras s c2 else c2) with
+    | error e => rw [hn2] at heff; cases heff
+    | ok n2 =>
+      rw [hn2] at heff
+      cases heff
+      have hc2' : (if i?.getD i = true then dropExtras s c2 else c2).wf = true := by
+        split
+        · have hnd : (keys c2.kwargs).Nodup := by simpa [Call.wf] using h2
+          simp only [Call.wf, dropExtras]
+          split
+          · rw [keys_filter (fun k => s.names.contains k)]
+            exact decide_eq_true (List.Nodup.sublist List.filter_sublist hnd)
+          · exact decide_eq_true hnd
+        · exact h2
+      have hw := namedWF_merge (namedWF_of_nameArgs hwf h1 hn1) (namedWF_of_nameArgs hwf hc2' hn2)
+      rw [pyCall_toCall s hwf _ hw]
+      exact C18_call body s hwf c1 c2 o i o? i? F n1 n2 h1 h2 ha1 ha2 hF hn1 hn2
+        (hcompat.imp id (fun h => h n1 n2 hn1 hn2))
+
+/-! ### Positional-only parameters (`def f(a, b, /, c)`; finding F62) -/
+
+/-- No keyword of the call names one of the first `npo` (positional-only) parameters. -/
+def AvoidsPosOnlyNames (npo : Nat) (s : Sig) (c : Call) : Prop :=
+  ∀ p ∈ c.kwargs, (s.posNames.take npo).contains p.1 = false
+
+instance (npo : Nat) (s : Sig) (c : Call) : Decidable (AvoidsPosOnlyNames npo s c) := by
+  unfold AvoidsPosOnlyNames; infer_instance
+
+/-- Full strength over signatures with positional-only parameters (late binding). -/
+def C18_posonly_Full : Prop :=
+  ∀ (npo : Nat) (s : Sig) (c : Call) (o : Bool) (F : Functor), s.wf = true → c.wf = true →
+    AvoidsVarargsName s c → npo ≤ s.pos.length →
+    functorInit s Call.empty o false = .ok F →
+    functorCall true F c none none = pyCallPO npo s c
+
+/-- F62: `def p(a, /)`: `p(a=1)` raises TypeError, `P()(a=1)` returns `a == 1` — pyglove treats a
+positional-only parameter as an ordinary symbolic field. Replayed on the real code (findings F62). -/
+theorem C18_posonly_counterexample : ¬ C18_posonly_Full := by
+  intro h
+  have := h 1 ⟨[⟨0, none⟩], none, [], none⟩ ⟨[], [(0, 1)]⟩ false _ (by decide) (by decide)
+    (by intro p hp; simp) (by decide) (functorInit_empty _ false false)
+  revert this
+  decide
+
+/-- What holds with positional-only parameters: every call that does not pass one of them by
+keyword behaves as the language prescribes — late binding, construction-time binding and direct
+construction of a symbolized class. -/
+theorem C18_posonly_partial {R : Type} (body : Assignment → R) (npo : Nat) (s : Sig) (hwf : s.wf = true)
+    (c : Call) (o i : Bool) (F0 : Functor) (hc : c.wf = true) (ha : AvoidsVarargsName s c)
+    (hpo : AvoidsPosOnlyNames npo s c)
+    (hF0 : functorInit s Call.empty o false = .ok F0) :
+    (functorCall true F0 c none none).map body = (pyCallPO npo s c).map body ∧
+    (match functorInit s c o i with
+     | .error e => (Except.error e : Except PyErr Assignment)
+     | .ok F => functorCall true F Call.empty none none).map body = (pyCallPO npo s c).map body ∧
+    (classInit s c).map body = (pyCallPO npo s c).map body := by
+  rw [pyCallPO_eq npo s c hpo]
+  exact ⟨C18_late body s hwf c o F0 hc ha hF0, C18_construct_total body s hwf c o i hc ha,
+    C18_direct body s hwf c hc ha⟩
+
+example : AvoidsPosOnlyNames 1 ⟨[⟨0, none⟩, ⟨1, none⟩], none, [], none⟩ ⟨[7], [(1, 2)]⟩ := by decide
 
 /-! ### Non-vacuity -/
 
